@@ -29,6 +29,21 @@ type c07Case struct {
 	Entries [][2]string `json:"entries"`
 	Fail    bool        `json:"fail"`
 	TwoEnds bool        `json:"two_end_positions"`
+	SrcRepl string      `json:"source_replicate_info"` // "" none | "unmarked" {false, ""} | "other" {true, "a-to-b"}: the source message already carries one
+}
+
+func c07SetSrcRepl(m msgstream.TsMsg, mode string) {
+	if mode == "" {
+		return
+	}
+	req := c07Req(m)
+	r := req.ProtoReflect()
+	base := r.Mutable(r.Descriptor().Fields().ByName("base")).Message().Interface().(*commonpb.MsgBase)
+	if mode == "unmarked" {
+		base.ReplicateInfo = &commonpb.ReplicateInfo{}
+	} else {
+		base.ReplicateInfo = &commonpb.ReplicateInfo{IsReplicate: true, ReplicateID: "a-to-b", MsgTimestamp: 77}
+	}
 }
 
 func c07Req(m msgstream.TsMsg) proto.Message {
@@ -67,6 +82,8 @@ func c07Run(cs c07Case) string {
 		v := opVals{DB: cs.DB, Coll: cs.Coll, Part: cs.Part, TS: uint64(5000 + i)}
 		msgs = append(msgs, buildDML(k, v, i+1))
 		pristine = append(pristine, buildDML(k, v, i+1))
+		c07SetSrcRepl(msgs[i], cs.SrcRepl)
+		c07SetSrcRepl(pristine[i], cs.SrcRepl)
 	}
 	endTs := uint64(5000 + len(cs.Kinds))
 	pack := dmlPack(endTs, msgs...)
@@ -142,7 +159,12 @@ func c07Run(cs c07Case) string {
 			} else {
 				r := want.ProtoReflect()
 				base := r.Mutable(r.Descriptor().Fields().ByName("base")).Message().Interface().(*commonpb.MsgBase)
-				base.ReplicateInfo = &commonpb.ReplicateInfo{IsReplicate: true, ReplicateID: cs.ReplID}
+				// every message carries the configured replicate id and the mark (other fields of an info the source
+				// message brought along are left alone)
+				if base.ReplicateInfo == nil {
+					base.ReplicateInfo = &commonpb.ReplicateInfo{}
+				}
+				base.ReplicateInfo.IsReplicate, base.ReplicateInfo.ReplicateID = true, cs.ReplID
 			}
 		}
 		if got.Type() != wantType {
@@ -209,7 +231,12 @@ func c07Cases(maxLen int) []c07Case {
 							if two && len(s) != 2 {
 								continue
 							}
-							cases = append(cases, c07Case{Kinds: s, DB: db, Coll: "a", Part: "p1", ReplID: rid, Entries: c09Shapes(db, "a")[shape], Fail: fail, TwoEnds: two})
+							for _, sr := range []string{"", "unmarked", "other"} {
+								if sr != "" && (fail || two || len(s) == 0) {
+									continue
+								}
+								cases = append(cases, c07Case{Kinds: s, DB: db, Coll: "a", Part: "p1", ReplID: rid, Entries: c09Shapes(db, "a")[shape], Fail: fail, TwoEnds: two, SrcRepl: sr})
+							}
 						}
 					}
 				}
@@ -243,7 +270,7 @@ func TestVerifC07Bytes(t *testing.T) {
 		maxLen = 4
 	}
 	res.Bounds["max_messages_per_pack"] = maxLen
-	res.Rule = "total enumeration of packs = every sequence of <= N messages over {Insert, Delete, DropPartition, DropCollection, Import, TimeTick} (rows, pks, row ids, partition names, files from builders) x source db {\"\", db1} x replicate id {none, r} x mapping {none, exact, whole-db} x downstream {ok, error} (x one/two end positions); the recorded ReplicateMessageParam is decoded with Milvus' own header + unmarshal dispatcher and compared message by message with a pristine copy of the pack; non-trivial = packs with >= 2 messages, a mapping or a replicate id"
+	res.Rule = "total enumeration of packs = every sequence of <= N messages over {Insert, Delete, DropPartition, DropCollection, Import, TimeTick} (rows, pks, row ids, partition names, files from builders) x source db {\"\", db1} x replicate id {none, r} x mapping {none, exact, whole-db} x downstream {ok, error} (x one/two end positions) x replicate info already on the source messages {none, unmarked, marked with another id}; the recorded ReplicateMessageParam is decoded with Milvus' own header + unmarshal dispatcher and compared message by message with a pristine copy of the pack; non-trivial = packs with >= 2 messages, a mapping or a replicate id"
 	cases := c07Cases(maxLen)
 	res.Bounds["cases"] = len(cases)
 	for i, cs := range cases {
